@@ -82,12 +82,36 @@ fn run_ignbits(out: &mut Out, rng: &mut Rng, bytes: &[u8], mode: u64) -> bool {
     true
 }
 
+/// beyond the rendered values: are the two decoded messages EQUAL as values (PartialEq of every attribute: a field that keeps
+/// reserved bits would differ), and does re-encoding them (what a relay does) give the same bytes?
+fn deep_same(x: &[u8], y: &[u8]) -> bool {
+    let dec = |b: &[u8]| guarded(|| MessageDecoderBuilder::default().build().decode(b)).ok().and_then(|r| r.ok()).map(|(m, _)| m);
+    match (dec(x), dec(y)) {
+        (Some(mx), Some(my)) => {
+            // StunAttribute has no PartialEq: the derived Debug rendering shows every field, private ones included
+            if format!("{:?}", mx.attributes()) != format!("{:?}", my.attributes()) { return false }
+            let plain = |m: &StunMessage| !m.attributes().iter().any(|a| a.is_message_integrity() || a.is_message_integrity_sha256() || a.is_fingerprint());
+            if plain(&mx) && plain(&my) {
+                let reenc = |m: &StunMessage| -> Option<Vec<u8>> {
+                    let mut b = StunMessageBuilder::new(m.method(), m.class()).with_transaction_id(*m.transaction_id());
+                    for a in m.attributes() { b = b.with_attribute(a.clone()) }
+                    let msg = b.build();
+                    let mut buf = vec![0u8; 4096];
+                    match guarded(|| MessageEncoderBuilder::default().build().encode(&mut buf, &msg)) { Ok(Ok(n)) => Some(buf[..n].to_vec()), _ => None }
+                };
+                reenc(&mx) == reenc(&my)
+            } else { true }
+        }
+        (None, None) => true,
+        _ => false,
+    }
+}
 fn run_ignbits_case(out: &mut Out, bytes: &[u8], p: &[u8]) {
     out.rec(&format!("C G {} {}", hex(bytes), hex(p)));
     let a = render_decode(bytes);
     let b = render_decode(p);
     out.imp(&format!("G {}|{}", a, b));
-    out.rec(&format!("J same={}", (a == b) as u8));
+    out.rec(&format!("J same={} deep={}", (a == b) as u8, deep_same(bytes, p) as u8));
 }
 
 fn run_case(out: &mut Out, method: u16, class: u8, txid: &[u8; 12], specs: &[String]) -> Option<Vec<u8>> {
@@ -195,6 +219,7 @@ fn main() {
     let reserved: Vec<usize> = (0..38).filter(|k| matches!(av::KINDS[*k].0, 0x0001 | 0x0012 | 0x0016 | 0x0020 | 0x8023 | 0x802B | 0x802C | 0x0009 | 0x8001 | 0x000C | 0x0018 | 0x0019 | 0x0017 | 0x8000 | 0x8004 | 0x8002)).collect();
     for i in 0..mine {
         let txid: [u8; 12] = rng.bytes(12).try_into().unwrap();
+        *av::TXID_HINT.lock().unwrap() = txid;
         // methods: the whole range, with the boundaries over-represented
         let method = match rng.below(6) { 0 => *rng.pick(&[0u16, 1, 0xFF, 0x100, 0x7FF, 0x800, 0xFFE, 0xFFF]), _ => rng.below(0x1000) as u16 };
         let class = rng.below(4) as u8;
